@@ -123,6 +123,45 @@ def trial_case(cid, rng, true_pt=False, zero_var=False):
     return c
 
 
+def struct_case(cid, rng):
+    """a trial drawn with a REAL generator: whatever the order / grouping of the draws, the residuals must have the
+    additive environment + replicate + plot structure the requested variance components allow"""
+    from pybrops.breed.prot.pt.G_E_Phenotyping import G_E_Phenotyping
+    n = rng.randrange(2, 5); p = rng.randrange(1, 5); T = rng.randrange(1, 4)
+    pg, gm, g, names, grp = make_pop(n, p, T, rng)
+    nenv = rng.randrange(1, 4); nrepv = [rng.randrange(1, 4) for _ in range(nenv)]
+    uniq = sorted(set(names))
+    z = {key: [rng.random() < 0.45 for _ in range(T)] for key in ("env", "rep", "err")}
+    if rng.random() < 0.3:                      # scalar variances
+        for key in z:
+            z[key] = [z[key][0]] * T
+    c = {"id": cid, "kind": "struct", "n": n, "nrep": nrepv, "name": [uniq.index(x) for x in names], "grp": [int(x) for x in grp],
+         "zenv": z["env"], "zrep": z["rep"], "zerr": z["err"], "err": None}
+    try:
+        with time_limit(30):
+            def vv(key):
+                arr = np.array([0.0 if zz else rng.choice([0.5, 1.0, 4.0]) for zz in z[key]])
+                return float(arr[0]) if len(set(z[key])) == 1 and rng.random() < 0.5 else arr
+            g_ = np.random.default_rng(rng.randrange(2 ** 32)) if cid % 2 else np.random.RandomState(rng.randrange(2 ** 32))
+            prot = G_E_Phenotyping(gm, nenv=nenv, nrep=np.array(nrepv), var_env=vv("env"), var_rep=vv("rep"), var_err=vv("err"), rng=g_)
+            df = prot.phenotype(pg)
+            tcols = ["y%d" % t for t in range(T)]
+            gof = {nm: g[i] for i, nm in enumerate(names)}
+            ids = [{} for _ in range(T)]
+            rows = []
+            for _, r in df.iterrows():
+                cls_ = []
+                for t, col in enumerate(tcols):
+                    res = round(float(r[col]) - float(gof[r["taxa"]][t]), 9) if r["taxa"] in gof else 1e9
+                    cls_.append(0 if res == 0 else ids[t].setdefault(res, len(ids[t]) + 1))
+                rows.append([uniq.index(r["taxa"]) if r["taxa"] in uniq else -1, int(r["taxa_grp"]), int(r["env"]), int(r["rep"]), cls_])
+            c["rows"] = rows
+    except Exception as ex:
+        c["err"] = "%s: %s" % (type(ex).__name__, str(ex)[:160])
+    c.setdefault("rows", [])
+    return c
+
+
 def meanbv_case(cid, rng):
     import pandas
     from pybrops.breed.prot.bv.MeanPhenotypicBreedingValue import MeanPhenotypicBreedingValue
@@ -237,12 +276,21 @@ def run(ctx):
         allc.append(trial_case(len(allc) + 1, rng, true_pt=(k % 6 == 0), zero_var=(k % 6 == 1)))
     for _ in range(300 if thorough else 110):
         allc.append(meanbv_case(len(allc) + 1, rng))
+    for k in range(240 if thorough else 80):
+        allc.append(struct_case(len(allc) + 1, rng))
     for _ in range(80 if thorough else 30):
         allc.append(h2_case(len(allc) + 1, rng))
+    # a scripted replay whose draw requests do not have the shape the plan predicts (the draws were regrouped or
+    # reordered) says nothing about the property: it is inapplicable, and the shape-agnostic "struct" cases and the
+    # variance tests carry the claim
+    inapplicable = [c for c in allc if c["kind"] == "trial" and not c.get("err") and not c["reqok"]]
+    allc = [c for c in allc if c not in inapplicable]
+    ctx.extra["scripted_replays_inapplicable"] = len(inapplicable)
     verd = cases.validate(ctx, "Phenotyping_Trace", "Phenotyping_Trace.cfg",
                           [{k: v for k, v in c.items() if k not in ("true", "which")} for c in allc], "Phenotyping_Trace", chunk=30, procs=14)
     ctx.traces += len(allc)
-    site = {"trial": "G_E_Phenotyping.phenotype", "meanbv": "MeanPhenotypicBreedingValue.estimate", "h2": "G_E_Phenotyping.set_h2"}
+    site = {"trial": "G_E_Phenotyping.phenotype", "meanbv": "MeanPhenotypicBreedingValue.estimate", "h2": "G_E_Phenotyping.set_h2",
+            "struct": "G_E_Phenotyping.phenotype[real generator]"}
     for c in allc:
         v = verd[c["id"]]
         ctx.count(1, repr({k: c[k] for k in c if k not in ("id",)}) if (c["kind"] != "trial" or c["n"] > 1) else None)
@@ -253,6 +301,6 @@ def run(ctx):
             ctx.violation("%s:%s" % (s, v), "TLC verdict %s%s" % (v, " -- " + c["err"] if c["err"] else ""),
                           {k: c[k] for k in c if k not in ("eps",)})
     variance_sanity(ctx, rng)
-    for kind in ("trial", "meanbv", "h2"):
+    for kind in ("trial", "meanbv", "h2", "struct"):
         s = [c for c in allc if c["kind"] == kind][1]
         ctx.sample({k: s[k] for k in s if k not in ("eps", "R")} | {"verdict": verd[s["id"]]})
